@@ -516,6 +516,10 @@ def _run_task(c, cid, st, tier, timeout_ms, both, seed, t0):
                     ctx.obligations.append(Obligation(f"{cid}::no-unexpected-exception", "failed", "path", 0.0,
                                                       f"{type(e).__name__}: {e}", m if m is not None else {}, "".join("T" if d else "F" for d in ctx.trace), "safety"))
             if _ABORT[0]:
+                # the time limit fired somewhere that swallowed the exception (a solver wrapper, a try / except of the harness): the rest of this path and the paths
+                # still queued were NOT explored - that is an undecided task, never a silent pass
+                if not any(o.status == "undecided" for o in ctx.obligations):
+                    ctx.undecided(f"{cid}::supported-subset", f"PathLimit: task time limit (path abandoned, {len(work) + len(ctx.forks)} more queued)", kind="subset")
                 obls.extend(o.to_json() for o in ctx.obligations)
                 break
             for f in ctx.forks:
@@ -553,6 +557,8 @@ def _run_task(c, cid, st, tier, timeout_ms, both, seed, t0):
                 # a native run that did not finish (time limit, unsupported construct) decided nothing: say so instead of counting it as a pass
                 obls.append(Obligation(f"{cid}::native-run-completed", "undecided", "-", 0.0, f"{r['error']} on inputs {vals}", kind="subset").to_json())
             if _ABORT[0]:
+                if not any(o["status"] == "undecided" for o in obls):
+                    obls.append(Obligation(f"{cid}::native-run-completed", "undecided", "-", 0.0, "PathLimit: task time limit during the native runs", kind="subset").to_json())
                 break
     return {"cid": cid, "st": st, "obligations": obls, "paths": paths, "ended": ended, "touched": list(touched.values()),
             "notes": sorted(set(notes)), "solver_calls": solver_calls, "solver_time": solver_time, "native": native,
